@@ -46,10 +46,12 @@ def toks(v):
             out += toks(x)
         return out + ["]"]
     if isinstance(v, tuple):
-        out = ["("]
+        # TUPLES: the driver's own Map / Lift functions returned their collections as tuples (what the
+        # model calls a list; the combinators themselves never make tuples)
+        out = ["[" if TUPLES else "("]
         for x in v:
             out += toks(x)
-        return out + [")"]
+        return out + ["]" if TUPLES else ")"]
     if isinstance(v, int):
         return ["#%d" % v]
     return ["?" + type(v).__name__]
@@ -86,6 +88,9 @@ def has_b(x):
     return x == "b" or (isinstance(x, (list, tuple)) and any(has_b(y) for y in x))
 
 
+TUPLES = False      # this term is run in the "diagnostics on, tuple-valued functions" variant
+
+
 def m_wrap(x):
     return [x]
 
@@ -101,7 +106,7 @@ def m_no_b(x):
 
 
 def l_wrap(*a):
-    return list(a)
+    return tuple(a) if TUPLES else list(a)
 
 
 def l_const(*a):
@@ -111,11 +116,11 @@ def l_const(*a):
 def l_no_b(*a):
     if has_b(list(a)):
         raise Backtrack("b is not welcome")
-    return list(a)
+    return tuple(a) if TUPLES else list(a)
 
 
 def l_rev(*a):
-    return list(reversed(a))
+    return tuple(reversed(a)) if TUPLES else list(reversed(a))
 
 
 MAPFN = {1: m_wrap, 2: m_const, 3: m_no_b}
@@ -259,20 +264,42 @@ def _run_term(p, w):
     return res, cres
 
 
+def debug_all(p, seen):
+    """Parser.debug() on every parser object of a grammar: documented to switch diagnostic messages on
+    and nothing else."""
+    if id(p) in seen or not isinstance(p, parsr.Parser):
+        return
+    seen.add(id(p))
+    p.debug()
+    for c in list(getattr(p, "children", None) or []):
+        debug_all(c, seen)
+
+
 def peg(job):
+    global TUPLES
     events = []
-    for item in job["terms"]:
+    for n, item in enumerate(job["terms"]):
         if STATS.get("hangs", 0) >= HANG_LIMIT:
             STATS["terms_not_run_after_hangs"] = STATS.get("terms_not_run_after_hangs", 0) + 1
             continue
-        p = build(item["t"], item["how"])
-        res, cres = [], []
-        for w in job["ws"]:
-            r, c = run_term(p, w)
-            res.append(r)
-            cres.append(c)
+        # every third term with diagnostics switched on for all its parsers and with the driver's Map / Lift
+        # functions returning tuples (the (key, value) idiom) where they otherwise return lists
+        dbg = bool(item.get("dbg", n % 3 == 2))
+        TUPLES = dbg
+        try:
+            p = build(item["t"], item["how"])
+            if dbg:
+                debug_all(p, set())
+                STATS["debugged_terms"] = STATS.get("debugged_terms", 0) + 1
+            res, cres = [], []
+            for w in job["ws"]:
+                r, c = run_term(p, w)
+                res.append(r)
+                cres.append(c)
+        finally:
+            TUPLES = False
         STATS["terms"] += 1
-        events.append({"ev": "parse", "t": item["t"], "how": item["how"], "res": res, "cres": cres})
+        events.append({"ev": "parse", "t": item["t"], "how": item["how"], "dbg": dbg, "res": res, "cres": cres})
     return {"id": job["id"], "ws": job["ws"], "events": events}
 
 
